@@ -1,0 +1,11 @@
+package proxy
+
+// verifName is the server name of a (possibly nil) server connection. It only feeds the
+// arguments of the verifhook instrumentation points, which are empty functions unless the
+// "verif" build tag is set.
+func (s *serverConnection) verifName() string {
+	if s == nil {
+		return ""
+	}
+	return s.server.info.Name()
+}
